@@ -16,6 +16,7 @@ def run(rep):
     d1(rep, w)
     d2(rep, w)
     d3(rep, w)
+    d4(rep, w)
 
 
 def arm_blocks(f, variant):
@@ -137,3 +138,32 @@ def d3(rep, w):
         dot_guard = any(g in d for g in dot_true) and any(g in d for (wh, g) in guards if wh == 'peek_next')
         r.check(digit_guard or dot_guard, 'Scanner::number advance #%d is guarded (%s)' % (n, 'digit' if digit_guard else 'dot followed by digit'),
                 'the number lexer consumes a character that is neither a digit nor a `.` followed by a digit: `1.len` / `1..3` lose their dot', f.loc(f.blocks[a]['t'].get('sp')))
+
+
+def d4(rep, w):
+    """no second number-to-text path: the string a value is turned into is, on every path, the output of format!("{}", value) --
+    a shortcut that formats the number some other way (integer formatting, a cached table) bypasses the -0 / round-trip rules of
+    Display for Value"""
+    r = rep.rule('D4', 'the text made from a value by String.from / interpolation comes only from format!("{}", value): no alternative number formatter', floor=4)
+    for nm in ('yarel::core::string_from', 'yarel::vm::Vm::format_string_impl'):
+        g = w.require_fn(nm, 'C19')
+        org = origins(g)
+        mk = [(bi, t) for bi, t in g.calls() if callee_name(t) == 'yarel::vm::Vm::new_gc_obj_string']
+        roots = set()
+        for bi, t in mk:
+            pl = op_place(t['args'][1])
+            work = list(org.get(pl['l'], ())) if pl else []
+            while work:
+                q = work.pop()
+                if q[0][0] == 'call' and q[0][2] == 'std::hint::must_use':
+                    # format! wraps its result in the identity function must_use
+                    ap = op_place(g.blocks[q[0][1]]['t']['args'][0])
+                    work.extend(org.get(ap['l'], ()) if ap else [(('opaque',),)])
+                    continue
+                roots.add(q[0][2] if q[0][0] == 'call' else str(q[0]))
+        r.check(bool(mk) and roots == {'std::fmt::format'}, '%s: the new string is the output of format!' % nm.rsplit('::', 1)[-1],
+                '%s builds its string from %s: besides format!("{}", value) another conversion produces the text' % (nm, sorted(roots)), g.loc())
+        others = sorted({'%s<%s>' % ((callee_name(t) or '').rsplit('::', 1)[-1], ','.join(g.crate.tstr(a) for a in (t['f'].get('ra') or t['f'].get('a') or [])))
+                         for _, t in g.calls() if ('fmt::rt::Argument' in (callee_name(t) or '') or (callee_name(t) or '').endswith('::to_string'))} -
+                        {'new_display<value::Value>', 'new_display<&value::Value>'})
+        r.check(not others, '%s: Display for Value is the only formatter' % nm.rsplit('::', 1)[-1], '%s also formats through %s' % (nm, others), g.loc())
